@@ -91,7 +91,9 @@ def alt_group_table(table, fmt, indir):
         return table
     parts = fmt.split(":")
     rc, gc, delim = int(parts[0]), int(parts[1]), {"tab": "\t", "comma": ",", "semi": ";", "space": " "}[parts[2]]
-    gz = len(parts) > 3 and parts[3] == "gz"
+    gz = "gz" in parts[3:]
+    short = "short" in parts[3:]         # file:<path>:<read col> - the documented defaults for the rest (group column 1, tab)
+    assert not short or (gc == 1 and delim == "\t")
     ncol = max(rc, gc) + 2
     lines = ["# read table written by the harness\n", "\n"]
     with open(table) as f:
@@ -111,6 +113,8 @@ def alt_group_table(table, fmt, indir):
     else:
         with open(path, "w") as f:
             f.writelines(lines)
+    if short:
+        return "%s:%d" % (path, rc)
     if delim == "\t":
         return "%s:%d:%d" % (path, rc, gc)
     return "%s:%d:%d:%s" % (path, rc, gc, delim)
